@@ -85,6 +85,7 @@ class RealLease:
         self.archived = []        # request ids sent on previous connections
         self.dropped = set()      # request ids held back when their connection ended
         self.first_lease = 0      # index in self.leases of the first LEASE of the current connection
+        self.acted = {}           # rid -> frame type the application's action on the held request owes ('CANCEL' / 'REQUEST_N')
 
     def request(self, rid):
         from rsocket.payload import Payload
@@ -127,6 +128,8 @@ class RealLease:
     def act_on_held(self, rid):
         """the application cancels / asks for more on an interaction whose request frame is still waiting for a lease"""
         h = self.handles.get(rid)
+        if rid % 4 != 1:
+            self.acted[rid] = 'REQUEST_N' if rid % 4 == 2 else 'CANCEL'
         with _running():
             if rid % 4 == 0:
                 h.cancel()                                  # request-response: the caller gives up
@@ -143,6 +146,7 @@ class RealLease:
         """what RSocketClient.connect() does, on every (re)connect, before anything can be queued on the new connection"""
         self.archived = self.sent()
         self.dropped |= set(self.pending())
+        self.acted = {}
         self.client._reset_internals()
         self.first_lease = len(self.leases)
         self._note_sent()
@@ -164,6 +168,21 @@ class RealLease:
                     type(f).__name__, f.stream_id))
         if len(set(s)) != len(s) or set(s) & set(p):
             return ('C14.each_request_sent_at_most_once', 'send queue %s, held back %s' % (s, p))
+        # what the application did to a request while it was held back takes effect when the request is released: its CANCEL /
+        # REQUEST_N follows the request frame into the send queue, exactly once (C09: exactly one CANCEL; C06: credit reaches the peer)
+        q = list(self.client._send_queue._queue)
+        for rid, owed in self.acted.items():
+            pos = [i for i, f in enumerate(q) if isinstance(f, (RequestResponseFrame, RequestStreamFrame, RequestChannelFrame, RequestFireAndForgetFrame))
+                   and (f.data or b'\xff')[0] == rid]
+            if not pos:
+                continue
+            sid = q[pos[0]].stream_id
+            after = [type(f).__name__.replace('Frame', '') for f in q[pos[0] + 1:] if f.stream_id == sid]
+            want = 'Cancel' if owed == 'CANCEL' else 'RequestN'
+            if after.count(want) != 1:
+                return (('C09.exactly_one_cancel_frame' if owed == 'CANCEL' else 'C06.credit_on_the_wire_reaches_the_peer'),
+                        'request %d (stream %d) was %s while it waited for a lease; released, it is followed by %s in the send queue' % (
+                            rid, sid, 'cancelled' if owed == 'CANCEL' else 'granted more credit', after or 'nothing'))
         per = {}
         for (r, t, li) in self.sent_log:
             if li < 0:
@@ -275,6 +294,24 @@ def model_check(v, thorough):
         v.add('transitions', r.generated)
         v.coverage.setdefault('mc_configs', {})[cfg] = {'states': r.distinct, 'transitions': r.generated, 'depth': r.depth,
                                                         'wall_s': round(r.wall, 1)}
+
+
+def check_acts(v, prop):
+    """only the replay of Lease_acts.cfg (the application acts on held requests), for the properties those actions belong to"""
+    import rsocket.lease
+    saved = rsocket.lease.datetime
+    try:
+        r = tlc.run('Lease', 'Lease_acts.cfg', workers=4, timeout=900, name='lease_acts')
+        if r.timed_out or not r.finished:
+            raise common.Machinery('TLC did not finish on Lease/Lease_acts.cfg: %s' % r.out[-1500:])
+        if r.violated:
+            v.add_failure('%s.design_%s' % (prop, r.violated), {'cfg': 'Lease_acts.cfg'}, 'TLC: %s violated in the lease model' % r.violated)
+        v.add('states', r.distinct)
+        v.add('transitions', r.generated)
+        desc = lambda s: 'sent=%s pending=%s refused=%s now=%d reconnects=%d' % (s['sent'], s['pending'], sorted(s['refused']), s['now'], s['conn'])
+        graphreplay.replay(v, 'Lease', 'Lease_acts.cfg', RealLease, _apply, _compare, _state, prop=prop, label='leaseacts', describe=desc)
+    finally:
+        rsocket.lease.datetime = saved
 
 
 def check(v):
